@@ -30,6 +30,22 @@
 (*    records that were already swapped/checkpointed - reachable only if a  *)
 (*    resolver checkpoints before StateWaitingFullResolution is committed;  *)
 (*    CommitBeforeCheckpoint assumes it away, the trace spec does not.)     *)
+(* Channel type (follow-up b13): a scenario is a close scenario x a channel *)
+(* type (legacy / anchor = zero-fee second level / taproot), the type is    *)
+(* part of the scenario name ("alocal" = anchor local force close, "tclaim" *)
+(* = taproot remote close with a contested HTLC that the peer claims ...).  *)
+(* For zero-fee types the second-level transactions go through the sweeper  *)
+(* (sweep requests instead of the nursery), the transaction that confirms   *)
+(* is a sweeper-re-signed one, so the second-level output that exists on    *)
+(* chain ("out2"/"in2") is NOT the output of the pre-signed transaction     *)
+(* ("pre2"/"prein2", which never exists).  The chain model is faithful      *)
+(* about outpoints: `Exists(op)` says which outpoints a resolver can wait   *)
+(* for, a spend is only produced for a signable sweep request of exactly    *)
+(* that outpoint (sweepReq is a set of [op, ok] records, ok = the input     *)
+(* carries what is needed to sign it - for taproot channels the control     *)
+(* block that the resolver encoding does not persist and the restart must   *)
+(* re-attach from the taproot briefcase).  Invariant SweepsSignable.        *)
+(*                                                                          *)
 (*   FccFixed - a restart in StateContractClosed re-derives the close      *)
 (*              trigger (code: uses chainTrigger, whose classification is  *)
 (*              EMPTY unless some HTLC is within the broadcast delta at    *)
@@ -57,8 +73,25 @@ volVars   == <<alive, state, mq, tg, res, pendUser, pendClose, closeSent, rcpc>>
 histVars  == <<upstream, ncrash, quirks, nw>>
 vars      == <<scen, logVars, extVars, worldVars, volVars, histVars>>
 
-AllScenarios == {"local", "remote", "localfar", "contest", "claim", "success", "breach", "coop",
-                 "shift", "rshift"}
+\* close scenarios; "rcontest": remote force close with an offered HTLC that is not yet expired (contested, then
+\* timed out by the direct sweep)
+BaseScenarios == {"local", "remote", "localfar", "contest", "rcontest", "claim", "success", "breach", "coop",
+                  "shift", "rshift"}
+\* ... x channel type: the scenarios with HTLC outputs on an anchor (zero-fee HTLC) resp. simple-taproot channel
+AnchorScen == {"alocal", "aremote", "acontest", "arcontest", "aclaim", "asuccess"}
+TapScen    == {"tlocal", "tremote", "tcontest", "trcontest", "tclaim", "tsuccess"}
+AllScenarios == BaseScenarios \cup AnchorScen \cup TapScen
+Base(s) == CASE s \in {"alocal", "tlocal"} -> "local"
+             [] s \in {"aremote", "tremote"} -> "remote"
+             [] s \in {"acontest", "tcontest"} -> "contest"
+             [] s \in {"arcontest", "trcontest"} -> "rcontest"
+             [] s \in {"aclaim", "tclaim"} -> "claim"
+             [] s \in {"asuccess", "tsuccess"} -> "success"
+             [] OTHER -> s
+bs == Base(scen)
+CType == IF scen \in AnchorScen THEN "anchor" ELSE IF scen \in TapScen THEN "taproot" ELSE "legacy"
+\* second-level HTLC transactions are signed SINGLE|ANYONECANPAY and handed to the sweeper
+ZeroFee == CType # "legacy"
 \* offered with output, offered dust, received dust, received with output (preimage known), and "n": a newer offered
 \* HTLC that is only on a commitment that did NOT confirm (an update was in flight at close time) - there it takes
 \* output 0 and shifts "o" to output 1, so the output layouts of the commitments in the CommitSet differ
@@ -68,22 +101,22 @@ States == {"Default", "BroadcastCommit", "CommitmentBroadcasted", "ContractClose
            "WaitingFullResolution", "FullyResolved"}
 
 (* ---- scenario parameters ------------------------------------------------ *)
-Kind == CASE scen \in {"local", "localfar", "contest", "success", "shift"} -> "local"
-          [] scen \in {"remote", "claim", "rshift"} -> "remote"
-          [] scen = "breach" -> "breach"
+Kind == CASE bs \in {"local", "localfar", "contest", "success", "shift"} -> "local"
+          [] bs \in {"remote", "rcontest", "claim", "rshift"} -> "remote"
+          [] bs = "breach" -> "breach"
           [] OTHER -> "coop"
-UserCloses == scen \in {"local", "localfar", "contest", "success", "shift"}
-HasOD == scen # "coop"
-HasID == scen \notin {"coop", "success"}
-HasO  == scen \in {"local", "remote", "contest", "claim", "breach", "shift", "rshift"}
-HasN  == scen \in {"shift", "rshift"}
-HasI  == scen = "success"
+UserCloses == bs \in {"local", "localfar", "contest", "success", "shift"}
+HasOD == bs # "coop"
+HasID == bs \notin {"coop", "success"}
+HasO  == bs \in {"local", "remote", "contest", "rcontest", "claim", "breach", "shift", "rshift"}
+HasN  == bs \in {"shift", "rshift"}
+HasI  == bs = "success"
 \* some HTLC is within the broadcast delta from the closing height on
-Near  == scen \in {"local", "remote", "breach", "shift", "rshift"}
+Near  == bs \in {"local", "remote", "breach", "shift", "rshift"}
 \* HTLC o has expired (for the arbitrator's classification) when the commitment confirms
-ExpiredAtClose == scen \in {"local", "remote", "breach", "shift", "rshift"}
+ExpiredAtClose == bs \in {"local", "remote", "breach", "shift", "rshift"}
 \* the chain trigger in StateDefault finds something to do
-ChainFires == (Near /\ late) \/ (scen \in {"contest", "claim"} /\ vlate)
+ChainFires == (Near /\ late) \/ (bs \in {"contest", "rcontest", "claim"} /\ vlate)
 CloseTrig == Kind          \* localCloseTrigger / remoteCloseTrigger / breachCloseTrigger / coopCloseTrigger
 Confirmed == late /\ (published \/ Kind # "local")
 
@@ -272,18 +305,57 @@ Active(r) == alive /\ res[r].kind # "none"
 CkptOK == CommitBeforeCheckpoint => logState # "ContractClosed"
 RSame == UNCHANGED <<scen, alive, state, mq, tg, pendUser, pendClose, closeSent, ncrash, quirks, rcpc>>
 
-\* Launch: only the direct timeout sweep on the remote commitment leaves a trace (sweep request)
-RLaunch(r) ==
-  /\ Active(r) /\ Kind = "remote" /\ ~res[r].launched /\ ~res[r].resolved
-  /\ (res[r].kind = "timeout" \/ (res[r].kind = "contest" /\ vlate))
+\* a sweep request: the outpoint offered to the sweeper and whether the input can be signed
+SReq(op, ok) == [op |-> op, ok |-> ok]
+Swept(op)    == SReq(op, TRUE) \in sweepReq
+\* Launch: the input a resolver offers to the sweeper when it is launched ("none": Launch leaves no trace).
+\* Remote commitment: the direct timeout sweep of the HTLC output.  Our commitment, zero-fee channel types: the
+\* second-level transaction (input = the HTLC output) or - if the resolver was checkpointed with its first stage
+\* done (outputIncubating) - the second-level output that was really created on chain.
+LaunchOp(r) ==
+  CASE Kind = "remote" /\ (res[r].kind = "timeout" \/ (res[r].kind = "contest" /\ vlate)) -> "htlc"
+    [] Kind = "local" /\ ZeroFee /\ (res[r].kind = "timeout" \/ (res[r].kind = "contest" /\ vlate)) ->
+         (IF res[r].stage = 0 THEN "htlc" ELSE "out2")
+    [] Kind = "local" /\ ZeroFee /\ res[r].kind \in {"success", "incontest"} ->
+         (IF res[r].stage = 0 THEN "in" ELSE "in2")
+    [] OTHER -> "none"
+RLaunch(r, ok) ==
+  /\ Active(r) /\ ~res[r].launched /\ ~res[r].resolved /\ LaunchOp(r) # "none"
+  \* the stage-two launch first waits for the (historical) spend of the HTLC output to learn the real outpoint
+  /\ LaunchOp(r) = "out2" => spent1 = "timeout"
+  /\ LaunchOp(r) = "in2" => spentIn # "none"
   /\ res' = [res EXCEPT ![r].launched = TRUE]
-  /\ sweepReq' = TRUE
+  /\ sweepReq' = sweepReq \cup {SReq(LaunchOp(r), ok)}
   /\ RSame /\ UNCHANGED <<logVars, extVars, late, vlate, published, spent1, spent2, spentIn, breachDone,
                           userAsked, upstream, nw>>
 
+\* zero-fee channel types, our commitment: once the re-signed second-level transaction has confirmed the resolver
+\* offers the output it created (NOT the output of the pre-signed transaction) to the sweeper
+ZfLocal(r) == Active(r) /\ Kind = "local" /\ ZeroFee /\ res[r].launched /\ ~res[r].resolved
+Sweep2Op(r) == IF res[r].kind = "timeout" THEN "out2" ELSE "in2"
+RSweep2(r, ok) ==
+  /\ ZfLocal(r)
+  /\ \/ res[r].kind = "timeout" /\ res[r].pc = "start" /\ res[r].stage = 0 /\ spent1 = "timeout"
+        /\ res' = [res EXCEPT ![r].pc = "up1"]
+     \/ res[r].kind = "success" /\ res[r].pc = "sw2"
+        /\ res' = [res EXCEPT ![r].pc = "wait"]
+  /\ sweepReq' = sweepReq \cup {SReq(Sweep2Op(r), ok)}
+  /\ RSame /\ UNCHANGED <<logVars, extVars, late, vlate, published, spent1, spent2, spentIn, breachDone,
+                          userAsked, upstream, nw>>
+
+\* the anchor resolver (stateless, re-created at every start) offers our anchor to the sweeper; the anchor is
+\* never worth sweeping here, so the resolver stays until the arbitrator stops
+RAnchor(again) ==
+  /\ alive /\ ZeroFee /\ state \in {"ContractClosed", "WaitingFullResolution"}
+  /\ \E r \in Rid : res[r].kind # "none"
+  /\ again \/ SReq("anchor", TRUE) \notin sweepReq
+  /\ sweepReq' = sweepReq \cup {SReq("anchor", TRUE)}
+  /\ UNCHANGED <<scen, logVars, extVars, late, vlate, published, spent1, spent2, spentIn, breachDone, userAsked,
+                 volVars, histVars>>
+
 \* nursery request (legacy second-level paths on our own commitment)
 RNursery(r) ==
-  /\ Active(r) /\ Kind = "local"
+  /\ Active(r) /\ Kind = "local" /\ ~ZeroFee
   /\ \/ res[r].kind = "timeout" /\ res[r].pc = "start"
         /\ res' = [res EXCEPT ![r].pc = IF res[r].stage = 1 THEN "wait2" ELSE "wait1"]
      \/ res[r].kind = "success" /\ res[r].pc = "pub"
@@ -304,6 +376,8 @@ RUp(r, k) ==
   /\ Active(r) /\ r = "o"
   /\ \/ k = "fail" /\ res[r].kind = "timeout" /\ Kind = "local" /\ res[r].pc = "wait1" /\ spent1 = "timeout"
         /\ res' = [res EXCEPT ![r].pc = "cp1"]
+     \/ k = "fail" /\ res[r].kind = "timeout" /\ Kind = "local" /\ res[r].pc = "up1"
+        /\ res' = [res EXCEPT ![r].pc = "cp1"]
      \/ k = "fail" /\ res[r].kind = "timeout" /\ Kind = "remote" /\ res[r].pc = "start" /\ spent1 = "timeout"
         /\ ~res[r].resolved
         /\ res' = [res EXCEPT ![r].pc = "cpf"]
@@ -317,8 +391,11 @@ RCheckpoint(r) ==
   /\ Active(r) /\ CkptOK
   /\ \/ res[r].pc = "cp1"                              \* first stage done (outputIncubating)
         /\ res' = [res EXCEPT ![r].stage = 1, ![r].pc = IF res[r].kind = "success" THEN "wait" ELSE "wait2"]
-     \/ res[r].pc = "wait2" /\ spent2                  \* second-level output swept
+     \/ (res[r].pc = "wait2" \/ (ZfLocal(r) /\ res[r].kind = "timeout" /\ res[r].pc = "start" /\ res[r].stage = 1))
+        /\ spent2                                       \* second-level output swept
         /\ res' = [res EXCEPT ![r].resolved = TRUE, ![r].pc = "rm"]
+     \/ ZfLocal(r) /\ res[r].kind = "success" /\ res[r].pc = "start" /\ res[r].stage = 0 /\ spentIn = "first"
+        /\ res' = [res EXCEPT ![r].stage = 1, ![r].pc = "sw2"]   \* re-signed success tx confirmed
      \/ res[r].pc = "cpf"                              \* direct spend / preimage claim: final
         /\ res' = [res EXCEPT ![r].kind = "timeout", ![r].resolved = TRUE, ![r].pc = "rm"]
      \/ res[r].pc = "fin2"                             \* success resolver: final
@@ -342,13 +419,14 @@ RSwap(r) ==
 
 \* success resolver on our commitment (legacy): publish the second-level tx
 RPublish(r) ==
-  /\ Active(r) /\ res[r].kind = "success" /\ res[r].pc = "start" /\ ~res[r].resolved
+  /\ Active(r) /\ ~ZeroFee /\ res[r].kind = "success" /\ res[r].pc = "start" /\ ~res[r].resolved
   /\ res' = [res EXCEPT ![r].pc = IF res[r].stage = 1 THEN "wait" ELSE "pub"]
   /\ RSame /\ UNCHANGED <<logVars, extVars, worldVars, upstream, nw>>
 
 \* success resolver: final outcome of the incoming HTLC, then the final checkpoint
 RFinal(r) ==
-  /\ Active(r) /\ res[r].kind = "success" /\ res[r].pc = "wait" /\ spentIn
+  /\ Active(r) /\ res[r].kind = "success" /\ spentIn = "second"
+  /\ res[r].pc = "wait" \/ (ZfLocal(r) /\ res[r].pc = "start" /\ res[r].stage = 1)
   /\ finalOut' = [finalOut EXCEPT !["i"] = "settled"]
   /\ res' = [res EXCEPT ![r].pc = "fin2"]
   /\ nw' = nw + 1
@@ -362,7 +440,7 @@ RResolve(r) ==
   /\ nw' = nw + 1
   /\ RSame /\ UNCHANGED <<logState, hasRes, hasCS, wiped, extVars, worldVars, upstream>>
 
-Resolver == \E r \in Rid : \/ RLaunch(r) \/ RNursery(r) \/ RPreimage(r) \/ RCheckpoint(r) \/ RSwap(r)
+Resolver == \E r \in Rid : \/ RLaunch(r, TRUE) \/ RSweep2(r, TRUE) \/ RNursery(r) \/ RPreimage(r) \/ RCheckpoint(r) \/ RSwap(r)
                            \/ RPublish(r) \/ RFinal(r) \/ RResolve(r)
                            \/ \E k \in {"fail", "settle"} : RUp(r, k)
 
@@ -385,22 +463,38 @@ DeliverClose == alive /\ Confirmed /\ ~closedDb /\ ~closeSent
                 /\ ESame /\ UNCHANGED <<worldVars, pendUser>>
 SpendHtlc(k) ==
   /\ EnvOK /\ Confirmed /\ HasO /\ spent1 = "none"
-  /\ \/ k = "claim" /\ scen = "claim"
-     \/ k = "timeout" /\ scen # "claim" /\ (ExpiredAtClose \/ vlate)
-        /\ ((Kind = "local" /\ nursery) \/ (Kind = "remote" /\ sweepReq))
+  /\ \/ k = "claim" /\ bs = "claim"
+     \* our timeout path: the nursery publishes the pre-signed tx (legacy), otherwise only a signable sweep
+     \* request for the HTLC output ever produces a spend
+     \/ k = "timeout" /\ bs # "claim" /\ (ExpiredAtClose \/ vlate)
+        /\ ((Kind = "local" /\ ~ZeroFee /\ nursery) \/ (Kind = "local" /\ ZeroFee /\ Swept("htlc"))
+            \/ (Kind = "remote" /\ Swept("htlc")))
   /\ spent1' = k
   /\ ESame /\ UNCHANGED <<late, vlate, published, sweepReq, spent2, spentIn, breachDone, userAsked,
                           pendUser, pendClose, closeSent>>
-SpendSecond == EnvOK /\ Kind = "local" /\ spent1 = "timeout" /\ ~spent2 /\ spent2' = TRUE
+SpendSecond == EnvOK /\ Kind = "local" /\ spent1 = "timeout" /\ ~spent2 /\ (ZeroFee => Swept("out2")) /\ spent2' = TRUE
                /\ ESame /\ UNCHANGED <<late, vlate, published, sweepReq, spent1, spentIn, breachDone, userAsked,
                                        pendUser, pendClose, closeSent>>
-SpendIn == EnvOK /\ HasI /\ nursery /\ ~spentIn /\ spentIn' = TRUE
+\* the incoming HTLC: first level (zero-fee types only: the re-signed success tx), then the second-level output
+SpendIn1 == EnvOK /\ HasI /\ ZeroFee /\ spentIn = "none" /\ Swept("in") /\ spentIn' = "first"
+            /\ ESame /\ UNCHANGED <<late, vlate, published, sweepReq, spent1, spent2, breachDone, userAsked,
+                                    pendUser, pendClose, closeSent>>
+SpendIn == EnvOK /\ HasI /\ spentIn' = "second"
+           /\ (IF ZeroFee THEN spentIn = "first" /\ Swept("in2") ELSE nursery /\ spentIn = "none")
            /\ ESame /\ UNCHANGED <<late, vlate, published, sweepReq, spent1, spent2, breachDone, userAsked,
                                    pendUser, pendClose, closeSent>>
 BreachDoneEv == EnvOK /\ Kind = "breach" /\ Confirmed /\ ~breachDone /\ breachDone' = TRUE
                 /\ ESame /\ UNCHANGED <<late, vlate, published, sweepReq, spent1, spent2, spentIn, userAsked,
                                         pendUser, pendClose, closeSent>>
-Env == Tick1 \/ Tick2 \/ UserReq \/ DeliverClose \/ SpendSecond \/ SpendIn \/ BreachDoneEv
+\* the outpoints that exist on chain (a resolver can only wait for one of these): the HTLC outputs of the confirmed
+\* commitment, and the second-level outputs once the transaction that creates them is out - for zero-fee types that
+\* is the RE-SIGNED transaction, the output of the pre-signed one ("pre2", "prein2") never exists
+Exists(op) == CASE op = "htlc" -> Confirmed /\ HasO
+                [] op = "out2" -> Kind = "local" /\ spent1 = "timeout"
+                [] op = "in"   -> Confirmed /\ HasI
+                [] op = "in2"  -> HasI /\ (IF ZeroFee THEN spentIn # "none" ELSE res["i"].kind = "success")
+                [] OTHER -> FALSE
+Env == Tick1 \/ Tick2 \/ UserReq \/ DeliverClose \/ SpendSecond \/ SpendIn1 \/ SpendIn \/ BreachDoneEv
        \/ \E k \in {"claim", "timeout"} : SpendHtlc(k)
 
 (* ---- crash and restart ---------------------------------------------------------------- *)
@@ -451,7 +545,7 @@ RCWipe ==
 
 (* ---- outcome ---------------------------------------------------------------------------- *)
 RefUp == [h \in HTLCs |-> CASE h = "od" -> (IF HasOD THEN {"fail"} ELSE {})
-                            [] h = "o"  -> (IF ~HasO THEN {} ELSE IF scen = "claim" THEN {"settle"} ELSE {"fail"})
+                            [] h = "o"  -> (IF ~HasO THEN {} ELSE IF bs = "claim" THEN {"settle"} ELSE {"fail"})
                             [] h = "n"  -> (IF HasN THEN {"fail"} ELSE {})
                             [] OTHER -> {}]
 RefFin == [h \in HTLCs |-> CASE h = "id" -> (IF HasID /\ Kind # "breach" THEN "failed" ELSE "none")
@@ -475,13 +569,13 @@ Init ==
   /\ wiped = FALSE /\ rcpc = "idle"
   /\ closedDb = FALSE /\ bmark = FALSE /\ nursery = FALSE /\ resolvedDb = FALSE
   /\ finalOut = [h \in HTLCs |-> "none"] /\ preimg = FALSE
-  /\ late = FALSE /\ vlate = FALSE /\ published = FALSE /\ sweepReq = FALSE
-  /\ spent1 = "none" /\ spent2 = FALSE /\ spentIn = FALSE /\ breachDone = FALSE /\ userAsked = FALSE
+  /\ late = FALSE /\ vlate = FALSE /\ published = FALSE /\ sweepReq = {}
+  /\ spent1 = "none" /\ spent2 = FALSE /\ spentIn = "none" /\ breachDone = FALSE /\ userAsked = FALSE
   /\ alive = TRUE /\ state = "Default" /\ mq = <<>> /\ tg = "chain" /\ res = NoVol
   /\ pendUser = FALSE /\ pendClose = FALSE /\ closeSent = FALSE
   /\ upstream = [h \in HTLCs |-> {}] /\ ncrash = 0 /\ quirks = {} /\ nw = 0
 
-Next == Main \/ Resolver \/ Env \/ Crash \/ Restart \/ RCWipe \/ Finished
+Next == Main \/ Resolver \/ RAnchor(FALSE) \/ Env \/ Crash \/ Restart \/ RCWipe \/ Finished
 Spec == Init /\ [][Next]_vars
 
 (* ---- the property ------------------------------------------------------------------------------ *)
@@ -493,6 +587,9 @@ MarkedOnlyWhenResolved == resolvedDb => (logState = "FullyResolved" \/ wiped)
 NoPendingCloseWithEmptyLog == wiped => resolvedDb
 \* never contradictory upstream resolutions
 UpstreamConsistent == \A h \in HTLCs : Cardinality(upstream[h]) <= 1
+\* every input handed to the sweeper can be signed (same inputs as the uninterrupted run: a restored resolver of a
+\* taproot channel carries the control blocks again)
+SweepsSignable == \A q \in sweepReq : q.ok
 \* no resolver and no checkpointed progress is lost: a record leaves the bucket only once it is
 \* persisted as resolved, and a rewrite never moves it backwards
 NoLoss == \A r \in Rid :
